@@ -1,7 +1,7 @@
 (* C19 - The copy-on-write B-tree is a correct sorted map with isolated clones.
    Statements only; proofs are in Proofs/BTree*.v, the model in Model/BTreeM.v. *)
 From DV Require Import Base.Prelude Model.BTreeM Proofs.BTreeBase Proofs.BTreeWf Proofs.BTreeInsert
-  Proofs.BTreeLookup Proofs.BTreeTop.
+  Proofs.BTreeLookup Proofs.BTreeDelete Proofs.BTreeTop.
 
 (* _Node.search_in_node (shortcut + binary search) on a key-sorted node = linear search *)
 Theorem search_spec : forall k es, ksorted es -> search k es = Ok (lsearch k es).
@@ -40,6 +40,33 @@ Theorem size_spec_insert : forall b e io,
              elements (b_root b') = ins_sorted e (elements (b_root b)) /\ b_immut b' = false /\ b_t b' = b_t b.
 Proof. exact insert_element_spec_proof. Qed.
 Print Assumptions size_spec_insert.
+
+(* every deletion (delete_key: exact = None; delete_exact: exact = Some id), present or absent
+   key: balance with steal-left / steal-right / merge, successor replacement while rebalancing
+   moves the target, root collapse - succeeds without IndexError / assert failure and keeps
+   the invariant *)
+Theorem delete_wf : forall t root key exact,
+  wf t root -> exists root' o, delete_tree t root key exact = Ok (root', o) /\ wf t root'.
+Proof. exact delete_wf_proof. Qed.
+Print Assumptions delete_wf.
+
+(* the outcome is the reference dictionary's (deleted element / None / the two ValueErrors of
+   delete_exact) and the traversal loses exactly the key (nothing on None / ValueError) *)
+Theorem delete_elements : forall t root key exact,
+  wf t root ->
+  let o := dspec exact (find_sorted key (elements root)) in
+  exists root', delete_tree t root key exact = Ok (root', o) /\
+                elements root' = after_del key o (elements root).
+Proof. exact delete_elements_proof. Qed.
+Print Assumptions delete_elements.
+
+Theorem size_spec_delete : forall b key exact,
+  bwf b -> b_immut b = false ->
+  let o := dspec exact (find_sorted key (elements (b_root b))) in
+  exists b', delete_btree b key exact = Ok (b', o) /\ bwf b' /\
+             elements (b_root b') = after_del key o (elements (b_root b)) /\ b_immut b' = false /\ b_t b' = b_t b.
+Proof. exact delete_btree_spec_proof. Qed.
+Print Assumptions size_spec_delete.
 
 Theorem frozen_rejects : forall b e io k exact,
   b_immut b = true ->
